@@ -121,6 +121,7 @@ def searches(ref, W, tier):
                 if not searchgen.compatible(ed) or len({q.split("=")[0] for q in qs}) != len(qs):
                     continue
                 yield searchgen.build(segs, ed, qs)
+    yield from cross_basetype_last(ref, W)
     # constants-backed and state levels under existing and non-existing parents
     for p in sorted(W.store.paths)[:: max(1, len(W.store.paths) // 25)]:
         yield p + "/*"
@@ -128,6 +129,19 @@ def searches(ref, W, tier):
     yield "*"
     yield "*/*"
     yield "*/*/*"
+
+
+def cross_basetype_last(ref, W):
+    """'>' searches whose typed forms belong to several basetypes (the type position is '*' or the list of all its values):
+    one answer list over all of them, in one order."""
+    if not W.leaves:
+        return
+    proj = W.leaves[0].split("/")[0]
+    codes = sorted({s.split("/")[1] for s in W.leaves if "/" in s})
+    for T in ["*"] + ([",".join(codes)] if len(codes) > 1 else []):
+        for n in range(3, ref.maxlen + 1):
+            for i in range(2, n):
+                yield "/".join([proj, T] + ["*"] * (i - 2) + [">"] + ["*"] * (n - 1 - i))
 
 
 def run_finder(f, s):
